@@ -24,13 +24,17 @@ const Rule = "cases = (tree kind, constructor arguments of each table: comparato
 	"key universes of 4-16 and of 16-64 keys) with a check after every mutator; plus the threshold sweep of package c01 " +
 	"(0,1,2,63,64,65,255,256,257,1023,1024,1025 and 65536 keys - thorough: also 65535,65537,70000 - inserted in sorted, reverse, " +
 	"zig-zag or random order, queries at the threshold ranks, growth past and shrinking below the size with all kinds of " +
-	"delete) with a check after the load and after every delete; " +
+	"delete; half of them with keys spread 2^5x apart) with a check after the load and after every delete; every size from 0 to 200 " +
+	"(load, battery, one delete of each kind, check after each); random-order loads of 300, 800, 1500, 2500, 5000 keys followed " +
+	"by random-order deletes, re-insertions and DeleteMin/DeleteMax with a check every n/6 mutations, plus oracle-only (NoModel) " +
+	"random loads of 2500 keys with churn and a check every 40 mutations (3 Red-Black, 1 AVL, 1 BST; three times as many when " +
+	"thorough / searching / code changed); one case in five instantiates K with string and/or V with a struct, a []int or an any; " +
 	"after every mutator (small tables) or periodically (large ones) a " +
 	"`height` call, at which the harness rebuilds the shape from the pre-order and in-order traversals and checks " +
 	"Height() = longest root-to-leaf path, AVL: every node's subtree heights differ by <= 1 and cached = real heights, " +
 	"Red-Black: black root, no red right link, no two reds in a row, equal black height on every path, " +
-	"2^height <= (n+1)^2; `dump` lines compare heights/colours/sizes with the Lean Model; every case runs on the Lean " +
-	"Model as well (oracle_only_cases = 0); " +
+	"2^height <= (n+1)^2; `dump` lines compare heights/colours/sizes with the Lean Model; every case but the oracle-only " +
+	"random loads runs on the Lean Model as well; " +
 	"non-trivial = at least one such check ran on a table holding >= 4 keys; distinct = distinct (header, op list)"
 
 func keysOf(l []c01.KV) []int {
